@@ -121,3 +121,4 @@ pub open spec fn optvec_view(o: Option<Vec<u8>>) -> Option<Seq<u8>> {
 pub fn as_dyn_mut<'a, T: Storage>(x: &'a mut T) -> (r: &'a mut dyn Storage)
     ensures r.view() == old(x).view(), final(x).view() == final(r).view()
 { x }
+//@ canary base let m = IMap::<Seq<u8>, Seq<u8>>::empty();
